@@ -135,6 +135,92 @@ def one_case(ctx, index, rng: random.Random):
              bool(nontrivial), cls=f"{d}d/{kind}/{mode}{'/inplace' if inplace else ''}{'/custom_errors' if custom else ''}", sample={**desc, "total": float(h.total)})
 
 
+def negative_run_case(ctx, index, rng):
+    """Runs whose sums lie below the lower end of a compact integer content type (negative contents of a difference made under free
+    arithmetics, with squared errors of their own): merged exactly, the type widens."""
+    from physt.config import config
+    from physt.histogram1d import Histogram1D
+    from physt.histogram_nd import Histogram2D
+
+    rec = ctx.rec
+    rec.mon("C10.merge.post")
+    dt = rng.choice(["int16", "int32"])
+    low = int(np.iinfo(dt).min)
+    v = low // 2 - rng.randint(1, 60)
+    d = rng.choice([1, 1, 2])
+    try:
+        with config.enable_free_arithmetics(), warnings.catch_warnings():
+            warnings.simplefilter("ignore")
+            if d == 1:
+                h = Histogram1D(np.array([0.0, 1.0, 2.0, 3.0]), np.array([v, v, 12], dtype=dt), errors2=np.array([1, 1, 12], dtype=dt))
+                m = h.merge_bins(2) if rng.random() < 0.5 else h.copy().merge_bins(2, inplace=True)
+                got, want = np.asarray(m.frequencies).tolist(), [2 * v, 12]
+            else:
+                h = Histogram2D([np.array([0.0, 1.0, 2.0]), np.array([0.0, 1.0])], np.array([[v], [v]], dtype=dt), errors2=np.array([[1], [1]], dtype=dt))
+                m = h.merge_bins(2, axis=0)
+                got, want = np.asarray(m.frequencies).ravel().tolist(), [2 * v]
+    except (OverflowError, ValueError):
+        rec.case(["negative_run", dt, d], True, cls=f"negative_run/{dt}/{d}d/refused")
+        return
+    except Exception as ex:
+        rec.fail(monitor="C10.merge.post", op="merge_bins", symptom=f"merging raised {type(ex).__name__}", diff=["raised"], detail={"error": str(ex)[:140]})
+        return
+    if [int(x) for x in got] != want:
+        rec.fail(monitor="C10.merge.post", op="merge_bins", symptom="contents of the merged bins are not the sums of their runs (a sum below the lower end of the content type wrapped around)",
+                 diff=["frequencies"], detail={"dtype_before": dt, "dtype_after": str(m.dtype), "got": got, "expected": want})
+    rec.case(["negative_run", dt, d, v], True, cls=f"negative_run/{dt}/{d}d/{np.dtype(m.dtype)}")
+
+
+def select_then_merge_case(ctx, index, rng):
+    """A selection that leaves gaps (mask, index array, stepped slice) of a histogram whose binning had been asked is_consecutive()
+    before: a merge whose run would cross one of the new gaps is refused, others merge exactly the selected bins."""
+    import physt
+    from physt.histogram1d import Histogram1D
+
+    rec = ctx.rec
+    rec.mon("C10.merge.post")
+    nb = rng.randint(4, 8)
+    e = gen.edges(rng, nb)
+    src = rng.choice(["pairs", "edges", "h1"])
+    f = np.array([rng.randint(1, 9) for _ in range(nb)])
+    if src == "pairs":
+        h = Histogram1D(np.array(gen.pairs_from_edges(e)), f)
+    elif src == "edges":
+        h = Histogram1D(np.array(e), f)
+    else:
+        h = physt.h1(np.array([(e[i] + e[i + 1]) / 2 for i in range(nb) for _ in range(int(f[i]))]), np.array(gen.pairs_from_edges(e)))
+    if rng.random() < 0.8:
+        with warnings.catch_warnings():
+            warnings.simplefilter("ignore")
+            try:
+                _ = h.binning.is_consecutive(), h.binning.numpy_bins
+            except Exception:
+                pass
+    keep = sorted(rng.sample(range(nb), rng.randint(3, nb - 1)))
+    how = rng.choice(["mask", "index_array"])
+    g = h[np.isin(np.arange(nb), keep)] if how == "mask" else h[np.array(keep)]
+    runs = [keep[k : k + 2] for k in range(0, len(keep), 2)]
+    crosses = any(len(r) == 2 and r[1] != r[0] + 1 for r in runs)
+    kwargs = {"amount": 2} if rng.random() < 0.7 else {"min_frequency": 100}
+    if "min_frequency" in kwargs:
+        crosses = any(b != a + 1 for a, b in zip(keep[:-1], keep[1:]))  # everything would end in one bin
+    try:
+        with warnings.catch_warnings():
+            warnings.simplefilter("ignore")
+            m = g.merge_bins(**kwargs) if rng.random() < 0.5 else g.copy().merge_bins(inplace=True, **kwargs)
+        refused = False
+    except Exception:
+        refused = True
+    if crosses and not refused:
+        rec.fail(monitor="C10.merge.post", op="merge_bins", symptom="a merge across a gap of a selection was not refused", diff=["not_refused"],
+                 detail={"kept_bins": keep, "selection": how, "source": src, "merged_bins": np.asarray(m.bins).tolist()[:6], **kwargs})
+    if not crosses and refused and "amount" in kwargs:
+        rec.fail(monitor="C10.merge.post", op="merge_bins", symptom="a merge of adjacent selected bins was refused", diff=["raised"], detail={"kept_bins": keep, "selection": how})
+    rec.case(["select_then_merge", e, keep, how, src, sorted(kwargs)], crosses, cls=f"select_then_merge/{how}/{'crosses' if crosses else 'adjacent'}")
+
+
 def run(ctx):
+    ctx.run_cases(ctx.scale(40, 200), negative_run_case, salt="negrun")
+    ctx.run_cases(ctx.scale(100, 600), select_then_merge_case, salt="selmerge")
     attach_monitors()
     ctx.run_cases(ctx.scale(600, 5000), one_case)
